@@ -125,22 +125,22 @@ impl<S: EventSource, const LIFE: bool> EventSource for Probe<S, LIFE> {
                    "rd": readiness.readable as u8, "wr": readiness.writable as u8}),
         );
         if self.faults.hit(self.id, "process") {
-            ev("peret", json!({"s": self.id, "act": "err"}));
+            ev("peret", json!({"s": self.id, "act": "err", "us": crate::trace::us()}));
             return Err(ProbeError("injected process_events fault".into()));
         }
         if self.synth_tok == Some(token) {
             ev("synth_pe", json!({"s": self.id}));
-            ev("peret", json!({"s": self.id, "act": "continue"}));
+            ev("peret", json!({"s": self.id, "act": "continue", "us": crate::trace::us()}));
             return Ok(PostAction::Continue);
         }
         let r = self.inner.process_events(readiness, token, callback);
         match r {
             Ok(a) => {
-                ev("peret", json!({"s": self.id, "act": post_action_str(a)}));
+                ev("peret", json!({"s": self.id, "act": post_action_str(a), "us": crate::trace::us()}));
                 Ok(a)
             }
             Err(e) => {
-                ev("peret", json!({"s": self.id, "act": "err"}));
+                ev("peret", json!({"s": self.id, "act": "err", "us": crate::trace::us()}));
                 let b: Box<dyn std::error::Error + Sync + Send> = e.into();
                 Err(ProbeError(b.to_string()))
             }
@@ -181,6 +181,10 @@ impl<S: EventSource, const LIFE: bool> EventSource for Probe<S, LIFE> {
 
     fn unregister(&mut self, poll: &mut Poll) -> calloop::Result<()> {
         if self.faults.hit(self.id, "unregister") {
+            // a realistic unregistration failure (ENOENT / EBADF) means the fd is already gone
+            // from the poller: let the wrapped source clean up, then report the error
+            let _ = self.inner.unregister(poll);
+            self.synth_tok = None;
             ev("unreg", json!({"s": self.id, "r": "err", "inj": 1}));
             return Err(injected().into());
         }
